@@ -312,6 +312,21 @@ let run (op : string) (a : string list) : string list =
        hex_of_bytes (efi_sign_model (bytes_of_hex cert_raw) (bytes_of_hex issuer) (n_of_string serial) (bytes_of_hex name)
                   (guid_of_string g) (n_of_string attrs) t (bytes_of_hex payload) (bytes_of_hex p7time) (bytes_of_hex sg));
        hex_of_bytes (efi_sign_tbs_model (bytes_of_hex name) (guid_of_string g) (n_of_string attrs) t (bytes_of_hex payload) (bytes_of_hex p7time))]
+  (* C01 *)
+  | "pe_parse", [img; peok; st; pre; bts] ->
+      let img = bytes_of_hex img in
+      let o = { po_ok = (st = "ok");
+                po_pre = (if String.length pre > 0 && pre.[0] = 'x' then Some (bytes_of_hex (String.sub pre 1 (String.length pre - 1))) else None);
+                po_bytes = (if bts = "-" then [] else bytes_of_hex bts) } in
+      let ((v, wf), nt) = check_pe_parse img (peok = "1") o in
+      [(match int_of_n v with 0 -> "ok" | 1 -> "violation" | _ -> "mismatch"); s01 nt; s01 wf]
+  | "pe_flip", [img; pos; nb; pre; peok2; st; pre2] ->
+      let img = bytes_of_hex img in
+      let strip p = if String.length p > 0 && p.[0] = 'x' then Some (bytes_of_hex (String.sub p 1 (String.length p - 1))) else None in
+      let pre = (match strip pre with Some p -> p | None -> []) in
+      let (v, cls) = check_pe_flip img (n_of_string pos) (List.hd (bytes_of_hex nb)) pre (peok2 = "1") (st = "ok") (strip pre2) in
+      [(if int_of_n v = 0 then "ok" else "violation"); s01 (int_of_n cls > 0);
+       (match int_of_n cls with 1 -> "covered" | 2 -> "excluded" | 3 -> "layout-changing" | _ -> "not-well-formed")]
   | _ -> ["skip"; "unknown op " ^ op]
 
 let () =
